@@ -493,6 +493,7 @@ int harnessMain(int argc, char** argv, const HarnessDef& def) {
         bool always = cases[idx].get("always", false).asBool();
         if (always ? (idx % sn != si) : ((idx / stride) % sn != si || idx % stride != 0)) continue;
         Json::Value c = cases[idx];
+        if (def.expand) def.expand(c);
         c["_idx"] = (Json::Int64)idx;
         Verdict v = runOne(c);
         if (!v.ok && !v.discard) {
